@@ -448,11 +448,10 @@ class SchemaGroup(SchemaSet):
                 )
 
             for st, sv in tag_fields.items():
-                if isinstance(sv, SchemaField):
-                    if sv.tag not in fmsg and self.required[sv]:
-                        raise FIXMessageError(
-                            f"fixmessage={groups} missing required field {repr(sv)}"
-                        )
+                if sv.tag not in fmsg and self.required[sv]:
+                    raise FIXMessageError(
+                        f"fixmessage={groups} missing required field {repr(sv)}"
+                    )
 
     def __repr__(self):
         """Repr."""
@@ -557,7 +556,7 @@ class FIXSchema:
                     # Group also refers to other component, postpone it
                     has_circular_refs = True
                     continue
-                component.add(g, g.required)
+                component.add(g, g.field_required)
 
         if has_circular_refs:
             return None
@@ -716,6 +715,9 @@ class FIXSchema:
                 if isinstance(f, SchemaField):
                     if f.tag not in msg:
                         raise FIXMessageError(f"Missing required field={repr(f)}")
+                elif isinstance(f, SchemaGroup):
+                    if f.tag not in msg:
+                        raise FIXMessageError(f"Missing required group={repr(f)}")
 
         if "8" in msg:
             self._validate_header(msg)
